@@ -19,6 +19,9 @@ Check/Priorities.vos Check/Priorities.vok Check/Priorities.required_vos: Check/P
 Engine/AndOr.vo Engine/AndOr.glob Engine/AndOr.v.beautified Engine/AndOr.required_vo: Engine/AndOr.v 
 Engine/AndOr.vio: Engine/AndOr.v 
 Engine/AndOr.vos Engine/AndOr.vok Engine/AndOr.required_vos: Engine/AndOr.v 
+Engine/AndOrEval.vo Engine/AndOrEval.glob Engine/AndOrEval.v.beautified Engine/AndOrEval.required_vo: Engine/AndOrEval.v Engine/AndOr.vo Engine/AndOrFacts.vo
+Engine/AndOrEval.vio: Engine/AndOrEval.v Engine/AndOr.vio Engine/AndOrFacts.vio
+Engine/AndOrEval.vos Engine/AndOrEval.vok Engine/AndOrEval.required_vos: Engine/AndOrEval.v Engine/AndOr.vos Engine/AndOrFacts.vos
 Engine/AndOrFacts.vo Engine/AndOrFacts.glob Engine/AndOrFacts.v.beautified Engine/AndOrFacts.required_vo: Engine/AndOrFacts.v Engine/AndOr.vo
 Engine/AndOrFacts.vio: Engine/AndOrFacts.v Engine/AndOr.vio
 Engine/AndOrFacts.vos Engine/AndOrFacts.vok Engine/AndOrFacts.required_vos: Engine/AndOrFacts.v Engine/AndOr.vos
